@@ -189,6 +189,9 @@ def run(ctx):
                 n += 1
         ctx.floor("R2", "length-returning exits of load_spaces", n, 2)
     # ---------------------------------------------------------------- R5
+    ctx.rule("R6", "the limit is lifted only by proof of reachability: in Path::validate the calls that mark the path validated and "
+                   "grant() the anti-amplification budget run only when the received PATH_RESPONSE data was compared equal to the "
+                   "outstanding PATH_CHALLENGE")
     ctx.rule("R5", "every committed packet is charged against the credit: Constraints::commit subtracts len from credit_limit on every path")
     cm = ctx.anchor("R5", "qconnection::path::util::Constraints::commit")
     if cm:
@@ -200,3 +203,36 @@ def run(ctx):
                "writes to credit_limit at %s (%s); every path to return passes one: %s — a packet that is not charged (e.g. "
                "ACK-only, not in flight) lets the next coalesced packet use the full credit again" % (allw, [k for _, k in ws], ok))
     ctx.assume("Constraints::constrain cuts the buffer to min(balance, quota) (value-level; not decided)")
+
+    # ---------------------------------------------------------------- R6
+    vb = [b for b in prog.bodies.values() if re.search(r"qconnection::path::validate::<impl qconnection::path::Path>::validate::\{closure#0\}$", b.short)]
+    ctx.floor("R6", "body of Path::validate", len(vb), 1)
+    for b in vb[:1]:
+        ctx.touch(b)
+        lifts = [(i, t) for i, t in b.calls() if re.search(r"AntiAmplifier(<.*>|::<.*>)?::grant$|path::Path>::validated$", callee(t))]
+        ctx.floor("R6", "grant()/validated() calls in Path::validate", len(lifts), 2)
+        eqs = []
+        for i, t in b.calls():
+            nm = callee(t)
+            if re.search(r"PartialEq(<.*>)?(>| for .*>)?::(eq|ne)$", nm) and len(t["args"]) == 2 and len(t["dest"]) == 1:
+                srcs = set()
+                for a in t["args"]:
+                    for pl in deep_places(b, a, 6):
+                        ty = b.local_ty(pl[0])
+                        if "PathResponseFrame" in ty:
+                            srcs.add("response")
+                        if "PathChallengeFrame" in ty:
+                            srcs.add("challenge")
+                        for og in b.trace_local(pl[0]):
+                            if og[0] == "call" and "PathResponseFrame" in callee(og[2]):
+                                srcs.add("response")
+                            if og[0] == "call" and "PathChallengeFrame" in callee(og[2]):
+                                srcs.add("challenge")
+                if srcs == {"response", "challenge"}:
+                    eqs.append((t["dest"][0], nm.endswith("eq")))
+        for (i, t) in lifts:
+            ok = any(runs_only_when(b, l, is_eq, i) for (l, is_eq) in eqs)
+            ctx.ob("R6", "%s|%s only after response == challenge" % (b.short, callee(t).split("::")[-1]), ok, b.where(t["line"]),
+                   "comparisons of the PATH_RESPONSE data with the PATH_CHALLENGE data: %d; this call runs only when one of them held: %s — "
+                   "otherwise any PATH_RESPONSE (a blind guess from a spoofed address, a stale one) validates the path and lifts the 3x "
+                   "limit towards an address that never proved it receives our packets" % (len(eqs), ok))
